@@ -34,6 +34,9 @@ type c02Week struct {
 	built      bool // a report for the week exists (local-only or uploadable)
 	uploadable bool // local/<week>.json may legitimately exist
 	acked      bool
+	// leftoverOnly: the week's only report is a leftover <week>.json written by the harness (no local.<week>.json)
+	// while its counter files are still there
+	leftoverOnly bool
 }
 
 func c02ModeContent(t *rapid.T, ref time.Time) (content string, mode string, asof time.Time, unreadable bool) {
@@ -199,6 +202,19 @@ func TestVerifC02Gating(t *testing.T) {
 				}
 				d := ref.AddDate(0, 0, rapid.IntRange(-2, 2).Draw(t, "leftoverOffset"))
 				wk := d.Format("2006-01-02")
+				// one leftover in three is for a week that has counter files and no report yet, if there is one
+				var open []string
+				for w, m := range weeks {
+					if !m.built && len(m.files) > 0 {
+						open = append(open, w)
+					}
+				}
+				sort.Strings(open)
+				targeted := false
+				if len(open) > 0 && rapid.IntRange(0, 2).Draw(t, "leftoverForOpenWeek") == 0 {
+					wk = open[rapid.IntRange(0, len(open)-1).Draw(t, "leftoverWhichWeek")]
+					targeted = true
+				}
 				if weeks[wk] == nil {
 					weeks[wk] = &c02Week{end: d, built: true, uploadable: true}
 					// the uploader takes any *<date>.json that does not start with "local." for a ready report
@@ -208,11 +224,11 @@ func TestVerifC02Gating(t *testing.T) {
 					if prefix != "" {
 						vstats.Label("leftoverWithPrefix")
 					}
-				} else if !weeks[wk].built && len(weeks[wk].files) > 0 && rapid.Bool().Draw(t, "leftoverForWeekWithFiles") {
+				} else if !weeks[wk].built && len(weeks[wk].files) > 0 && (targeted || rapid.Bool().Draw(t, "leftoverForWeekWithFiles")) {
 					// an earlier run was interrupted between writing <week>.json and local.<week>.json: the week's
 					// counter files are still there. The report exists, so the week is not built again; whether the
 					// leftover may be sent is decided by the mode and the dates like for any ready report.
-					weeks[wk].built, weeks[wk].uploadable = true, true
+					weeks[wk].built, weeks[wk].uploadable, weeks[wk].leftoverOnly = true, true, true
 					os.WriteFile(filepath.Join(dir, "local", wk+".json"), []byte(fmt.Sprintf("{\"Week\":%q,\"X\":0.5,\"Config\":\"v0\"}", wk)), 0666)
 					boundary = true
 					vstats.Label("leftoverForWeekWithFiles")
@@ -327,6 +343,13 @@ func TestVerifC02Gating(t *testing.T) {
 				}
 				if status >= 400 && status < 500 {
 					w.uploadable = false // discarded
+					if w.leftoverOnly && !w.end.Before(now) {
+						// the leftover was the week's only report and is gone now, and the week's counter files have
+						// not expired yet (files that have are removed in the same run, before the upload): the week
+						// is in the state of any week without a report and is built, and gated, when the files expire
+						w.built, w.leftoverOnly = false, false
+						vstats.Label("leftoverDiscardedFilesRemain")
+					}
 				}
 			}
 			// reverse direction, only inside the clearly permitted region (C08 demands delivery there)
